@@ -456,6 +456,20 @@ def _method(proj, ci, f, ctx, containers, tested_foreign, findings, stats):
             else:
                 stats["covered"].append("%s.%s" % (f.qualname, t.attr))
 
+    # ---------------- class level containers reached through a loop variable:
+    #   for h in self.A, self.B: h.clear() / h.append(v)
+    for n in ast.walk(f.node):
+        if isinstance(n, ast.For) and isinstance(n.target, ast.Name) and isinstance(n.iter, (ast.Tuple, ast.List)):
+            names = [_class_container(e, sn, ci, containers, proj) for e in n.iter.elts]
+            names = [x for x in names if x]
+            if not names:
+                continue
+            for m in ast.walk(n):
+                if isinstance(m, ast.Call) and isinstance(m.func, ast.Attribute) and isinstance(m.func.value, ast.Name) and m.func.value.id == n.target.id \
+                        and m.func.attr in CONTAINER_MUTATORS + ("clear", "pop", "remove", "sort", "reverse"):
+                    stats["memo_stores"] += 1
+                    findings.append(Finding(f, m.lineno, names[0], "class-level container",
+                                            "class-level containers %s (shared by all instances) are changed in place through the loop variable `%s` (`%s`): every object of the class sees, and clears, the same history" % (", ".join("`%s`" % x for x in names), n.target.id, unparse(m)[:40])))
     # ---------------- class level and foreign
     for n in ast.walk(f.node):
         # keyed / unkeyed mutation through a method call
@@ -566,12 +580,9 @@ def _class_container(node, sn, ci, containers, proj):
     instance does not shadow it in a constructor -> its name"""
     if isinstance(node, ast.Attribute) and node.attr in containers and _is_class_ref(node.value, sn, ci, proj):
         if isinstance(node.value, ast.Name) and node.value.id == sn:
-            # self.X: shadowed if a constructor of the family assigns self.X
-            for c in proj.mro(ci):
-                init = c.methods.get("__init__")
-                if init is not None:
-                    for t, _, _ in _stores_in(init.node.body):
-                        if isinstance(t, ast.Attribute) and t.attr == node.attr and isinstance(t.value, ast.Name) and t.value.id == init.params[0]:
-                            return None
+            # self.X: shadowed if the constructor chain (methods it calls included) assigns self.X
+            from .effects import init_attrs
+            if node.attr in init_attrs(proj, ci):
+                return None
         return node.attr
     return None
